@@ -755,6 +755,17 @@ func (w *c18World) proposal(r *Rec, f []string) (string, string) {
 	pair := kind + "." + oldTy + ">" + d.ty
 	r.Count(kind + "." + res)
 	r.Count("pair." + pair + "." + res)
+	// mixed proposals: the client state and the consensus state are of different client types
+	if mixKs, _ := c18TyOfKS(ks); cs != nil && ks != nil && mixKs != d.ty {
+		r.Count(kind + ".mixed-types.attempted")
+		r.Count(kind + ".mixed-types." + res)
+		if existed && d.ty != oldTy && mixKs == oldTy {
+			r.Count(kind + ".mixed-types.cs-other-ks-existing.attempted")
+		}
+		if existed && d.ty == oldTy {
+			r.Count(kind + ".mixed-types.cs-existing-ks-other.attempted")
+		}
+	}
 
 	// ---- property oracle, evaluated on the real code's own observations --------------------------
 	switch {
@@ -773,10 +784,14 @@ func (w *c18World) proposal(r *Rec, f []string) (string, string) {
 		if kind == "create" && (!c18NameValid(name) || existed) {
 			w.find(r, "C18:create-accepted-invalid-or-existing-name", fmt.Sprintf("create accepted for name %q (valid=%v, existed=%v)", name, c18NameValid(name), existed), "ok", "error")
 		}
-		if kind == "upgrade" && (!existed || oldTy != d.ty) {
-			w.find(r, "C18:upgrade-changed-type:"+pair, "upgrade accepted although the client type differs / client missing", "ok", "error")
+		storedTy := ""
+		if stored, ok := ck.GetClientState(w.ctx, name); ok {
+			storedTy = c18TyOfCS(stored)
 		}
-		if kind == "toggle" && (!existed || oldTy == d.ty) {
+		if kind == "upgrade" && (!existed || oldTy != d.ty || storedTy != oldTy) {
+			w.find(r, "C18:upgrade-changed-type:"+pair, fmt.Sprintf("upgrade accepted although the client type differs / client missing: client type before %q, proposed %q, stored after %q", oldTy, d.ty, storedTy), "ok, stored type "+storedTy, "error (an upgrade keeps the client type "+oldTy+")")
+		}
+		if kind == "toggle" && (!existed || oldTy == d.ty || storedTy == oldTy) {
 			w.find(r, "C18:toggle-kept-type:"+pair, "toggle accepted although the client type is the same / client missing", "ok", "error")
 		}
 		if !d.valid {
@@ -1144,6 +1159,45 @@ func c18Use(name, cs string, who string) []string {
 }
 
 // the exhaustive matrix: every ordered type pair for toggle, every type for upgrade and create, each followed by use
+// consensus-state descriptor of type c that goes with the client-state descriptor cb of type b (the matching one when
+// the types agree, otherwise the first variant of that type)
+func c18KSOf(c, b, cb string) string {
+	if c == b {
+		_, k := c18CSOf(b, strings.HasSuffix(cb, "1") || cb == "tssB")
+		return k
+	}
+	_, k := c18CSOf(c, false)
+	return k
+}
+
+// the mixed matrix: against each of the 4 existing client types, every kind of proposal with the proposal's
+// CLIENT-state type and CONSENSUS-state type varying independently over all 4 x 4 combinations (each in a history of
+// its own, because an accepted one changes the state); creates also under a fresh name
+func c18MixedMatrix() [][]string {
+	var out [][]string
+	for _, a := range c18Types {
+		ca, ka := c18CSOf(a, false)
+		pre := []string{"reset", "relayer r0 N0 N1", "relayer tssA N0 N1", "relayer tssB N0 N1", "time " + c18TimeFor(ca) + " 1", "create N0 " + ca + " " + ka}
+		for _, kind := range []string{"upgrade", "toggle", "create"} {
+			for _, b := range c18Types {
+				cb, _ := c18CSOf(b, a == b)
+				for _, c := range c18Types {
+					kc := c18KSOf(c, b, cb)
+					h := append([]string{}, pre...)
+					h = append(h, "time "+c18TimeFor(cb)+" 1", kind+" N0 "+cb+" "+kc, "status N0")
+					if kind == "create" {
+						h = append(h, "create N1 "+cb+" "+kc, "status N1")
+					}
+					// whatever is installed now must still be usable by its own rules
+					h = append(h, "time "+c18TimeFor(cb)+" 200", "update N0 r0 next", "update N0 tssA tss:B", "status N0")
+					out = append(out, h)
+				}
+			}
+		}
+	}
+	return out
+}
+
 func c18Matrix(pow bool) [][]string {
 	var out [][]string
 	rel := []string{"reset", "relayer r0 N0 N1", "relayer tssA N0", "relayer tssB N0"}
@@ -1349,6 +1403,9 @@ func TestC18(t *testing.T) {
 	}
 	if r.Shard == 0 || r.Tier == "quick" {
 		for _, h := range c18Matrix(r.Tier == "thorough") {
+			run(h)
+		}
+		for _, h := range c18MixedMatrix() {
 			run(h)
 		}
 	}
